@@ -166,6 +166,7 @@ Theorem nested_validators_skipped_refuted :
 Proof. exact ValidProofs.nested_validators_skipped_refuted. Qed.
 
 Theorem nested_keyerror_substitutes_default_refuted :
+  c12_encode_swallows_nested_keyerror = true ->
   let v := VObj [([111], VObj [([98], VInt 1)])] in
   construct subst_schema = CAccept /\
   valid_top (modify_top subst_schema) v = true /\
